@@ -192,3 +192,12 @@ Example where_select_followed :
      (Call (Attr (Call (Attr jets "Where") [Lambda ["j"] pt_gt] [] []) "Select") [Lambda ["j"] (call0 (Name "j") "pt")] [] [])
      = Ok (e', TIter TFloat, ev).
 Proof. exact (follow_types_agree _ _ _ _ wt_where_select). Qed.
+
+(* F43: [not x] is bool whatever [x] is; F44: a key given twice in a dictionary literal has its last value *)
+Example not_and_duplicate_keys :
+  follow W4 [("e", TCls "Ev" [])] (UnaryOp UNot (call0 (call0 (Name "e") "mid") "first")) =
+    Ok (UnaryOp UNot (call0 (call0 (Name "e") "mid") "first"), TBool, []) /\
+  (let d := Dict [Const (CStr "a"); Const (CStr "a")] [Const (CInt 1); Const (CFloat "2.0")] in
+   follow W4 [] (Attr d "a") = Ok (Attr d "a", TFloat, []) /\
+   follow W4 [] (Subscript d (Const (CStr "a"))) = Ok (Subscript d (Const (CStr "a")), TFloat, [])).
+Proof. repeat split; vm_compute; reflexivity. Qed.
